@@ -22,7 +22,6 @@ var DefaultModelOptions = []resource.Option{
 	WithActiveModeOption(resource.WithNoDuplicates()),
 	WithModeOption(resource.WithNoDuplicates()),
 	WithClock(clock.Real()),
-	WithRNG(rand.New(rand.NewSource(rand.Int63()))),
 }
 var defaultInitialVoltage float32 = 240
 
@@ -103,6 +102,8 @@ func WithRNG(rng *rand.Rand) resource.Option {
 
 func calcModelArgs(opts ...resource.Option) modelArgs {
 	args := new(modelArgs)
+	// each model gets a random source of its own by default: a *rand.Rand is not safe for use by several models at once
+	args.apply(WithRNG(rand.New(rand.NewSource(rand.Int63()))))
 	args.apply(DefaultModelOptions...)
 	args.apply(opts...)
 	return *args
